@@ -54,7 +54,14 @@ def run(ctx):
                      "phases": phases})
     ov = ctx.harness_overlay("services/keep-balance", "harness/C12_keepbalance")
     bev, _ = ctx.go_run_driver("services/keep-balance", ov, "TestVerifC12Bal$", bscn, timeout=1800)
-    bal = {(e["scn"], e["phase"]): e["seq"] for e in bev}
+    bal = {(e["scn"], e["phase"]): e["seq"] for e in bev if e["ev"] == "bal"}
+    unknown = sum(1 for e in bev if e["ev"] == "balunknown")
+    if unknown:
+        ctx.drift.append("keep-balance rank could not be read off balanceBlock's decisions in %d of %d cases "
+                         "(pull targets and trash targets disagree: pull/trash policy differs from the model)"
+                         % (unknown, len(bev)))
+    if unknown > len(bev) // 2:
+        ctx.extra["balancer_rank_unobservable"] = True
     merged = []
     for t in traces:
         phase = 0
@@ -64,7 +71,7 @@ def run(ctx):
             if e["ev"] == "change":
                 phase = 1
             merged.append(e)
-            if e["ev"] == "write":
+            if e["ev"] == "write" and (scn, phase) in bal:
                 merged.append({"ev": "bal", "seq": bal[(scn, phase)]})
     ctx.evaluations = len(traces)
     ctx.extra["scenarios_skipped"] = len(skipped)
@@ -95,7 +102,10 @@ def run(ctx):
         ov = ctx.harness_overlay("sdk/go/keepclient", "harness/C12_keepclient")
         ev2, _ = ctx.go_run_driver("sdk/go/keepclient", ov, "TestVerifC12E2E$", e2e, timeout=1800)
         ctx.extra["e2e_traces"] = len(vlib.split_traces(ev2))
-        ctx.judge(sd, "KeepE2ETrace", "Judge_KeepE2E.cfg", ev2, scenario_of={s["id"]: s for s in e2e})
+        # the composed clauses restate C11 (counting) and ask for read liveness that C03 declines to judge:
+        # under C12's id they are growth of the specification, reported as drift only
+        ctx.judge_as_drift("e2e_fake_stores", sd, "KeepE2ETrace", "Judge_KeepE2E.cfg", ev2,
+                           scenario_of={s["id"]: s for s in e2e})
         ctx.evaluations += ctx.extra["e2e_traces"]
         # the same scenarios against REAL keepstore handlers (Directory volumes) behind the real keepclient
         import C12_e2e_real
